@@ -1,14 +1,22 @@
+_T = "contract-based deductive verification: sidecar contracts on the real functions, symbolic execution of the real function objects on proxies, obligations discharged by z3 (cvc5 second back end)"
+_TRUST = "Trusted: the vt engine (proxies, path exploration, stubs = assumed contracts of jax.numpy / jax.tree_util / jax.lax.scan / modular_vmap as seen from callers), z3/cvc5, CPython; meta-rules (structural induction over generative-function objects, object-invariant rule for handlers, loop-invariant rule); A-REAL (floats as reals); A-BODY (@gen bodies are deterministic and reach the handler only through trace()). The law of random draws is reduced to dataflow facts plus A-PRNG/A-TFP."
+
+
+def _c(pid, text, ref, note=_TRUST):
+    return {"property_id": pid, "text": text, "design_ref": ref, "note": note, "technique": _T}
+
+
 CHECKS = [
-    {
-        "property_id": "C16",
-        "text": "Unbounded proof for every selection class: match() of the real code, run on a symbolic address with abstract sub-selections, satisfies the match contract against the denotation written from the property; structural induction gives the Boolean algebra for all expressions and all paths.",
-        "design_ref": "DESIGN.md §7 C16",
-        "note": "Trusted: the vt engine (proxies, path exploration), z3/cvc5, CPython; the induction meta-rule; dict-iteration semantics for the loop-invariant rule.",
-    },
+    _c("C01", "Unbounded proof of the GFI contract G1/G2 for Distribution, the Simulate/Assess handler steps (symbolic address, abstract callee, arbitrary map contents), Fn.simulate/assess, Vmap, Scan, Cond and the trace accessors, with abstract callees: assess is the sum of site log densities, simulate's score is its negation, for every composition by structural induction. Known findings are reported as KNOWN-FINDING lines.", "DESIGN.md §7 C01"),
+    _c("C02", "Unbounded proof of G3 for Distribution.generate, the Generate handler step, Fn/Vmap/Scan/Cond.generate: constraints honoured, missing sub-calls contribute 0, weights accumulate; client lemma weight = D - Q.", "DESIGN.md §7 C02"),
+    _c("C03", "Unbounded proof of G4 for Distribution.update, the Update handler step, Fn/Vmap/Scan/Cond.update (Cond also across a branch switch), Trace.update; client lemmas: round trip with the discard, telescoping.", "DESIGN.md §7 C03"),
+    _c("C04", "Unbounded proof of G5 for Distribution.regenerate (resampled iff Sel(s, eps)), the Regenerate handler step (remainder of the selection is passed down), Fn/Vmap/Scan/Cond.regenerate including totality (never raises) for every discard shape.", "DESIGN.md §7 C04"),
+    _c("C05", "Coherence is a postcondition of every edit given a coherent input (G4/G5 of every implementor) plus the telescoping lemma; trace accessors of Tr/ScanTr/CondTr.", "DESIGN.md §7 C05"),
+    _c("C16", "Unbounded proof for every selection class: match() of the real code, run on a symbolic address with abstract sub-selections, satisfies the match contract against the denotation written from the property (structural induction gives the Boolean algebra for all expressions and paths); Fn.filter / Fn.merge verified by loop invariants on mechanically extracted loop pieces at leaf level; filter-then-merge identity lemma.", "DESIGN.md §7 C16", "Trusted: the vt engine, z3/cvc5, CPython; the induction meta-rule; dict-iteration semantics for the loop-invariant rule; precondition of Fn.merge: the two maps have compatible shapes (both dict or both leaf at shared keys)."),
 ]
 _PENDING = "contracts for this property are not built yet in this round (work in progress; see DESIGN.md §7)"
 NOT_APPLICABLE = [
     {"property_id": p, "reason": _PENDING}
-    for p in ["C01","C02","C03","C04","C05","C06","C07","C08","C09","C10","C11","C12","C13","C14","C15","C17","C18","C19","C20"]
+    for p in ["C06","C07","C08","C09","C10","C11","C12","C13","C14","C15","C17","C18","C19","C20"]
 ]
-NOTES = "Contract-based deductive verification; see DESIGN.md. Exit codes: 0 held, 1 violation, 2 undecided, 3 checker error."
+NOTES = "Contract-based deductive verification; see DESIGN.md. Exit codes: 0 held (open known findings printed as KNOWN-FINDING lines), 1 violation, 2 undecided, 3 checker error."
